@@ -39,6 +39,25 @@ def singularities(self, lookup):
     return frozenset(singularity_list)
 '''
 
+REF_IS_STATEFUL = '''
+def is_stateful(self, lookup):
+    if self.value is None:
+        return False
+    for dep in self.value.dependencies:
+        try:
+            state = lookup[dep]
+        except KeyError:
+            continue
+        if state.is_stateful(lookup):
+            return True
+    return False
+'''
+
+REF_ATOM_IS_STATEFUL = '''
+def is_stateful(self, lookup):
+    return isinstance(self, State) or isinstance(self, TimeDependentState)
+'''
+
 REF_IS_INFINITE = '''
 @property
 def is_infinite(self):
@@ -141,6 +160,12 @@ def run(ctx: Ctx):
         "every stateful dependency is searched with singularities(expr, its symbol); each point of a finite set is recorded with limit(expr, symbol, point)",
         "Assignment.singularities no longer examines every stateful dependency / records (symbol, value, limit(expr, symbol, value)) for every point of a finite singular set",
     )
+    util.same_as_reference(
+        ctx, "R16.b", "atoms.py", "Assignment.is_stateful", REF_IS_STATEFUL, "some-dependency-is-stateful",
+        "an assignment is stateful iff some dependency found in the lookup table is; names that are not in the table (t, time, missing variables) are skipped",
+        "Assignment.is_stateful is no longer 'some dependency that the lookup table knows is stateful, unknown names skipped': an expression that also mentions t / time (or a missing variable) can be classified as not depending on a state, and its singularities are never searched (the answer then also depends on the order of a frozenset)",
+    )
+    util.same_as_reference(ctx, "R16.b", "atoms.py", "Atom.is_stateful", REF_ATOM_IS_STATEFUL, "states-are-stateful", "states (plain or time dependent) are stateful, parameters are not", "Atom.is_stateful no longer answers True exactly for State / TimeDependentState")
     import ast as _ast
 
     from sa.sm import norm as _norm
